@@ -13,10 +13,10 @@ def rsaPubObj (o : Oracle) (k : Key) (n e : Nat) : Obj :=
 
 theorem marshal_rsa_pub (o : Oracle) (k : Key) (n e : Nat) (hp : k.pub = .rsa ⟨n, e⟩) (hq : k.priv = .none)
     (hn : 0 < n) (he : 2 ≤ e) (he' : e ≤ 2147483647) :
-    (marshal k).run o = .ok (rsaPubObj o k n e) := by
+    (marshalFrom k).run o = .ok (rsaPubObj o k n e) := by
   have h1 : n ≠ 0 := by omega
   have h2 : ¬ ((e : Int) < 2 ∨ (e : Int) > 2147483647) := by omega
-  unfold marshal
+  unfold marshalFrom
   simp only [PO.run_bind, run_encodeCommon, hp, hq]
   simp [encodeMaterial, encodeRsa, validateRsaPub, h1, h2, rsaPubObj]
 
@@ -106,11 +106,11 @@ theorem marshal_rsa_priv (o : Oracle) (k : Key) (n e d p q : Nat) (rs : List Nat
     (hp : k.pub = .rsa ⟨n, e⟩) (hq : k.priv = .rsa ⟨n, e⟩ d (p :: q :: rs) pre)
     (R : RsaOK o n e d p q rs)
     (hcrt : ∀ v, effPre o n e d (p :: q :: rs) pre = some v → v.crt.length = rs.length) :
-    (marshal k).run o = .ok (rsaPrivObj o k n e d p q rs (effPre o n e d (p :: q :: rs) pre)) := by
+    (marshalFrom k).run o = .ok (rsaPrivObj o k n e d p q rs (effPre o n e d (p :: q :: rs) pre)) := by
   have h1 : n ≠ 0 := by have := R.n0; omega
   have h2 : ¬ ((e : Int) < 2 ∨ (e : Int) > 2147483647) := by have := R.e2; have := R.e31; omega
   have hv := run_validateRsaPriv o n e d p q rs R
-  unfold marshal
+  unfold marshalFrom
   simp only [PO.run_bind, run_encodeCommon, hp, hq]
   simp only [encodeMaterial, encodeRsa, PO.run_bind, validateRsaPub, hv]
   -- the CRT part, by the shape of the effective precomputed values
